@@ -1,7 +1,12 @@
 package main
 
 import (
+	"fmt"
 	"go/types"
+	"strings"
+	"os"
+	"path/filepath"
+	"runtime"
 
 	"golang.org/x/tools/go/ssa"
 )
@@ -42,8 +47,15 @@ func (P *Program) modCompute(fn *ssa.Function) map[string]bool {
 	for k := range P.mods[fn] {
 		m[k] = true
 	}
-	all := func() { m["*"] = true }
+	all := func() {
+		if !m["*"] && os.Getenv("VC_TRACE") != "" {
+			_, file, line, _ := runtime.Caller(1)
+			fmt.Fprintf(os.Stderr, "modset * in %s at %s:%d\n", fn, filepath.Base(file), line)
+		}
+		m["*"] = true
+	}
 	finish := func() map[string]bool {
+		normMods(m)
 		if len(m) != len(P.mods[fn]) || P.mods[fn] == nil {
 			P.modChanged = true
 		}
@@ -61,6 +73,16 @@ func (P *Program) modCompute(fn *ssa.Function) map[string]bool {
 		return finish()
 	}
 	tt := P.tt
+	fresh := false // while true, recorded names are "N$"-prefixed: only newly allocated objects change
+	put := func(hn string) {
+		if fresh {
+			if !m[hn] {
+				m["N$"+hn] = true
+			}
+			return
+		}
+		m[hn] = true
+	}
 	var addType func(t types.Type)
 	addType = func(t types.Type) {
 		defer func() {
@@ -77,15 +99,36 @@ func (P *Program) modCompute(fn *ssa.Function) map[string]bool {
 					addType(fi.typ)
 				default:
 					hn, _ := tt.fieldHeap(si, i)
-					m[hn] = true
+					put(hn)
 				}
 			}
 		case *types.Array:
 			addType(u.Elem())
 		default:
 			hn, _ := tt.elemHeap(t)
-			m[hn] = true
+			put(hn)
 		}
+	}
+	// rootAlloc: the address is a field/element path into an object allocated in this function
+	var rootAlloc func(v ssa.Value) bool
+	rootAlloc = func(v ssa.Value) bool {
+		switch x := v.(type) {
+		case *ssa.Alloc:
+			return true
+		case *ssa.FieldAddr:
+			return rootAlloc(x.X)
+		case *ssa.IndexAddr:
+			if _, isPtr := x.X.Type().Underlying().(*types.Pointer); isPtr {
+				return rootAlloc(x.X)
+			}
+			if ms, ok := x.X.(*ssa.MakeSlice); ok && ms != nil {
+				return true
+			}
+			if sl, ok := x.X.(*ssa.Slice); ok {
+				return rootAlloc(sl.X)
+			}
+		}
+		return false
 	}
 	addStore := func(addr ssa.Value) {
 		defer func() {
@@ -93,6 +136,10 @@ func (P *Program) modCompute(fn *ssa.Function) map[string]bool {
 				all()
 			}
 		}()
+		if rootAlloc(addr) {
+			fresh = true
+			defer func() { fresh = false }()
+		}
 		T := deref(addr.Type())
 		if fa, ok := addr.(*ssa.FieldAddr); ok {
 			st := deref(fa.X.Type())
@@ -118,6 +165,7 @@ func (P *Program) modCompute(fn *ssa.Function) map[string]bool {
 				addStore(x.Addr)
 			case *ssa.Alloc, *ssa.MakeSlice, *ssa.MakeMap, *ssa.MakeChan, *ssa.MakeClosure:
 				m["$alloc"] = true
+				fresh = true
 				if a, ok := x.(*ssa.Alloc); ok {
 					addType(deref(a.Type()))
 				}
@@ -125,8 +173,13 @@ func (P *Program) modCompute(fn *ssa.Function) map[string]bool {
 					addType(ms.Type().Underlying().(*types.Slice).Elem())
 				}
 				if mm, ok := x.(*ssa.MakeMap); ok {
-					addMapHeaps(m, mm.Type().Underlying().(*types.Map))
+					mt := mm.Type().Underlying().(*types.Map)
+					k := fullType(mt.Key()) + "$" + fullType(mt.Elem())
+					put("MD$" + k)
+					put("MV$" + k)
+					put("MN$" + k)
 				}
+				fresh = false
 			case *ssa.MakeInterface:
 				m["$alloc"] = true
 				func() {
@@ -137,7 +190,9 @@ func (P *Program) modCompute(fn *ssa.Function) map[string]bool {
 					}()
 					if !isPtrLike(x.X.Type()) {
 						hn, _ := tt.boxHeap(x.X.Type())
-						m[hn] = true
+						fresh = true
+						put(hn)
+						fresh = false
 					}
 				}()
 			case *ssa.Convert:
@@ -166,7 +221,13 @@ func (P *Program) modCompute(fn *ssa.Function) map[string]bool {
 					case "delete":
 						addMapHeaps(m, c.Args[0].Type().Underlying().(*types.Map))
 					case "clear":
-						all()
+						if mt, ok := c.Args[0].Type().Underlying().(*types.Map); ok {
+							addMapHeaps(m, mt)
+						} else if sl, ok := c.Args[0].Type().Underlying().(*types.Slice); ok {
+							addType(sl.Elem())
+						} else {
+							all()
+						}
 					}
 					continue
 				}
@@ -177,6 +238,22 @@ func (P *Program) modCompute(fn *ssa.Function) map[string]bool {
 						}
 						continue
 					}
+					// class-hierarchy analysis: the union over the in-repo implementations. Implementations
+					// outside the repository are assumed to write only what their arguments reach.
+					if iface, ok := c.Value.Type().Underlying().(*types.Interface); ok {
+						impls := P.implementations(iface, c.Method)
+						if len(impls) > 0 {
+							for _, im := range impls {
+								for k := range P.modCompute(im.fn) {
+									m[k] = true
+								}
+							}
+							if m["*"] {
+								return finish()
+							}
+							continue
+						}
+					}
 					all()
 					continue
 				}
@@ -184,6 +261,12 @@ func (P *Program) modCompute(fn *ssa.Function) map[string]bool {
 				if callee == nil {
 					if mc, ok := c.Value.(*ssa.MakeClosure); ok {
 						callee = mc.Fn.(*ssa.Function)
+					} else if ok := isAssumedPure(valueName(c.Value)); ok {
+						continue
+					} else if _, isParam := c.Value.(*ssa.Parameter); isParam {
+						// a function passed in by the caller: its effects are accounted for at the call
+						// sites of this function (closure arguments contribute their write sets there)
+						continue
 					} else {
 						all()
 						continue
@@ -194,6 +277,13 @@ func (P *Program) modCompute(fn *ssa.Function) map[string]bool {
 				}
 				// closures passed as arguments may run
 				for _, a := range c.Args {
+					for {
+						ct, ok := a.(*ssa.ChangeType)
+						if !ok {
+							break
+						}
+						a = ct.X
+					}
 					if mc, ok := a.(*ssa.MakeClosure); ok {
 						for k := range P.modCompute(mc.Fn.(*ssa.Function)) {
 							m[k] = true
@@ -203,6 +293,12 @@ func (P *Program) modCompute(fn *ssa.Function) map[string]bool {
 							for k := range P.modCompute(a.(*ssa.Function)) {
 								m[k] = true
 							}
+						} else if _, isParam := a.(*ssa.Parameter); isParam {
+							// forwarded from our own caller
+						} else if cst, isConst := a.(*ssa.Const); isConst && cst.Value == nil {
+							// nil function
+						} else if ok := isAssumedPure(valueName(a)); ok {
+							// a callback declared free of effects
 						} else {
 							all()
 						}
@@ -215,6 +311,15 @@ func (P *Program) modCompute(fn *ssa.Function) map[string]bool {
 		}
 	}
 	return finish()
+}
+
+// normMods removes "N$X" entries shadowed by a plain "X".
+func normMods(m map[string]bool) {
+	for k := range m {
+		if strings.HasPrefix(k, "N$") && m[k[2:]] {
+			delete(m, k)
+		}
+	}
 }
 
 func isPtrLike(t types.Type) bool {
